@@ -123,5 +123,5 @@ def to_vals(points, extra=None):
         if p is None or p.isempty:
             continue
         for v, t in p.coordinates.items():
-            out[v] = t.detach().double().numpy().reshape(len(t), -1)
+            out[v] = t.detach().double().numpy().reshape(-1, t.shape[-1])
     return out
